@@ -222,7 +222,7 @@ Proof. intros q Hq. first [exact (simple_special_sound q Hq) | exact (simple_spe
 Print Assumptions C15_simple_special_sound.
 
 (* if y is NOT a gamma-scaled permutation of x (as multisets of logarithms), at most k challenges t
-   admit a commitment that can be answered for two different c *)
+   allow a commitment that can be answered for two different c *)
 Theorem C15_simple_sound_bound :
   forall (q : Z), prime q ->
   forall (g gamma : zq q) (x y ts : list (zq q)),
